@@ -264,8 +264,15 @@ func runEVK(c EVKCase, rec *h.Rec) error {
 				return err
 			}
 			shares[i] = protos[i].AllocateShare(ek)
+			var in inputSnap
+			in.snap("secret-key-in", w.sks[i].Value)
+			in.snap("secret-key-out", skOuts[i].Value)
+			in.snap("crp", flatMatrix(crps[i].Value)...)
 			if err := protos[i].GenShare(w.sks[i], skOuts[i], crps[i], &shares[i]); err != nil {
 				return h.Failf("C14:EVK:GenShare-error", "party %d: %v", i, err)
+			}
+			if err := in.check("EVK", "GenShare", i); err != nil {
+				return err
 			}
 		}
 		ops := evkOps(protos[0], ek)
@@ -311,7 +318,13 @@ func runEVK(c EVKCase, rec *h.Rec) error {
 				return err
 			}
 			shares[i] = protos[i].AllocateShare(ek)
+			var in inputSnap
+			in.snap("secret-key", w.sks[i].Value)
+			in.snap("crp", flatMatrix(crps[i].Value)...)
 			panicked, pmsg, err := protect(func() error { return protos[i].GenShare(w.sks[i], g, crps[i], &shares[i]) })
+			if err := in.check("GKG", "GenShare", i); err != nil {
+				return err
+			}
 			if panicked {
 				key, msg := "C14:GKG:GenShare:panic", fmt.Sprintf("GaloisKeyGenProtocol.GenShare panicked: %s (key %+v, #P=%d)", pmsg, c.Key, len(c.Params.P))
 				if len(c.Params.P) == 0 {
